@@ -712,7 +712,10 @@ func parseVal(tok string) float64 {
 	return v
 }
 
-func runSearch(w *world, tier string, fracs fracmanager.List, si int, s searchSpec, r *rng.R, res *result, only func(tree, agg int) bool) {
+func runSearch(w *world, tier string, fracs fracmanager.List, si int, s searchSpec, r *rng.R, res *result, only func(tree, agg int) bool,
+	li int, lim aggLimits) {
+	w.setLimits(lim)
+	res.counts = append(res.counts, "limits:"+lim.kind)
 	q := s.query()
 	params, err := q.Params()
 	if err != nil {
@@ -720,14 +723,15 @@ func runSearch(w *world, tier string, fracs fracmanager.List, si int, s searchSp
 	}
 	baseInput := func() map[string]any {
 		in := map[string]any{"world": w.idx, "search": si, "query": s.text, "from": s.from, "to": s.to, "reverse": s.reverse,
-			"sealed": w.sealed, "exact": w.exact}
+			"sealed": w.sealed, "exact": w.exact, "lim_index": li,
+			"agg_limits": map[string]int{"max_field_tokens": lim.field, "max_group_tokens": lim.group, "max_tids_per_fraction": lim.tids}}
 		if !w.big {
 			var fs [][]string
 			for _, f := range w.fracs {
 				var ds []string
 				for _, d := range f {
 					var toks []string
-					for _, k := range []string{"m", "g", "h", "v", "w"} {
+					for _, k := range w.tokOrder {
 						if v, ok := d.f[k]; ok {
 							toks = append(toks, k+":"+v)
 						}
@@ -760,6 +764,7 @@ func runSearch(w *world, tier string, fracs fracmanager.List, si int, s searchSp
 	}
 	leaves := make([]*seq.QPR, len(fracs))
 	leafErr := map[int]string{}
+	limErr := map[int]bool{}
 	var live []int
 	for i, f := range fracs {
 		if !inRange[i] {
@@ -771,12 +776,39 @@ func runSearch(w *world, tier string, fracs fracmanager.List, si int, s searchSp
 			live = append(live, i)
 			continue
 		}
+		if err != nil && lim.on() && errors.Is(err, consts.ErrTooManyUniqValues) {
+			limErr[i] = true
+			live = append(live, i)
+			continue
+		}
 		if err != nil {
 			viol("search-error", "per-fraction search failed: "+err.Error(), map[string]any{"fraction": i})
 			return
 		}
 		leaves[i] = qpr
 		live = append(live, i)
+	}
+	if lim.on() && w.fkind == "" {
+		// which fractions fail with ErrTooManyUniqValues, and does the Searcher fail
+		for k, i := range live {
+			if only == nil || only(100+k, -2) {
+				emitLimErr(w, s, si, fmt.Sprintf("fraction %d", i), 100+k, []int{i}, lim, limErr[i], baseInput, res)
+			}
+		}
+		_, serr := guard(func() (*seq.QPR, error) { return fracbuild.Search(fracs, q, 0) })
+		if serr != nil && !errors.Is(serr, consts.ErrTooManyUniqValues) {
+			viol("search-error", "Searcher.SearchDocs failed: "+serr.Error(), nil)
+			return
+		}
+		if only == nil || only(99, -2) {
+			emitLimErr(w, s, si, "searcher", 99, live, lim, serr != nil, baseInput, res)
+		}
+		if len(limErr) > 0 || serr != nil {
+			return
+		}
+	} else if len(limErr) > 0 {
+		viol("search-error", "aggregation limits rejected a search they cannot reject (small world, production defaults)", nil)
+		return
 	}
 	if w.fkind == "malformed" {
 		// which fractions fail, and does the Searcher fail: parseNum rejects NaN / Inf / unparsable tokens
@@ -808,6 +840,12 @@ func runSearch(w *world, tier string, fracs fracmanager.List, si int, s searchSp
 	ntrees := 2
 	if w.big {
 		ntrees = 1
+	}
+	if lim.on() {
+		ntrees = 1 // limits on: one random tree over the per-fraction results and the Searcher
+		if tier == "quick" {
+			ntrees = 0
+		}
 	}
 	for k := 0; k < ntrees && len(live) > 0; k++ {
 		perm := append([]int(nil), live...)
@@ -856,7 +894,7 @@ func runSearch(w *world, tier string, fracs fracmanager.List, si int, s searchSp
 				emitAgg(w, s, si, ti, ai, a, run.t, run.qpr, live, baseInput, res)
 			}
 			// quick tier: the float case of the first random tree and of the Searcher only
-			if tier != "quick" || ti != 1 || len(runs) < 3 || w.fkind != "" {
+			if tier != "quick" || ti != 1 || len(runs) < 3 || w.fkind != "" || lim.on() {
 				emitAggF(w, s, si, ti, ai, a, run.t, run.qpr, live, run.leafQ, baseInput, res)
 			}
 		}
@@ -1155,7 +1193,7 @@ func emitAgg(w *world, s searchSpec, si, ti, ai int, a aggSpec, t *tree, qpr *se
 
 // ---------------------------------------------------------------- one world
 
-func runWorld(seed uint64, idx int, tier string, nsearch int, only func(search, tree, agg int) bool) (res *result) {
+func runWorld(seed uint64, idx int, tier string, nsearch int, only func(search, lim, tree, agg int) bool) (res *result) {
 	res = &result{}
 	w := genWorld(seed, idx, tier)
 	dir, err := os.MkdirTemp("", "verif-hC06-")
@@ -1163,7 +1201,7 @@ func runWorld(seed uint64, idx int, tier string, nsearch int, only func(search, 
 		panic(err)
 	}
 	defer os.RemoveAll(dir)
-	fm, err := fracbuild.NewFM(dir, nil)
+	fm, err := fracbuild.NewFM(dir, func(c *fracmanager.Config) { w.cfg = c })
 	if err != nil {
 		panic(err)
 	}
@@ -1172,7 +1210,7 @@ func runWorld(seed uint64, idx int, tier string, nsearch int, only func(search, 
 		docs := make([]fracbuild.Doc, len(f))
 		for j, d := range f {
 			var toks []string
-			for _, k := range []string{"m", "g", "h", "v", "w"} {
+			for _, k := range w.tokOrder {
 				if v, ok := d.f[k]; ok {
 					toks = append(toks, k+":"+v)
 				}
@@ -1216,13 +1254,21 @@ func runWorld(seed uint64, idx int, tier string, nsearch int, only func(search, 
 			s = floatOnlySearch(s, w, si)
 		}
 		rs := r.Fork()
-		var o func(int, int) bool
-		if only != nil {
-			si := si
-			o = func(t, a int) bool { return only(si, t, a) }
+		// every search runs with the limits off, with the production defaults and (ordinary worlds) with tiny limits
+		for li, lim := range limitConfigs(seed, w, si, s) {
+			rl := rs
+			if li > 0 {
+				rl = rng.New(seed*919 + uint64(idx)*104729 + uint64(si)*131 + uint64(li))
+			}
+			var o func(int, int) bool
+			if only != nil {
+				si, li := si, li
+				o = func(t, a int) bool { return only(si, li, t, a) }
+			}
+			runSearch(w, tier, fracs, si, s, rl, res, o, li, lim)
 		}
-		runSearch(w, tier, fracs, si, s, rs, res, o)
 	}
+	w.setLimits(aggLimits{})
 	return res
 }
 
@@ -1241,7 +1287,7 @@ func main() {
 		fmt.Fprintln(os.Stderr, "need -out")
 		os.Exit(2)
 	}
-	w, err := casefile.New(*out, "C06", "From C06 Require Import Model ModelFloat CaseDefs.", 55)
+	w, err := casefile.New(*out, "C06", "From C06 Require Import Model ModelFloat ModelLimits CaseDefs.", 55)
 	if err != nil {
 		panic(err)
 	}
@@ -1269,7 +1315,7 @@ func main() {
 	}
 	results := make([]*result, nworlds)
 	var wg sync.WaitGroup
-	sem := make(chan struct{}, 6)
+	sem := make(chan struct{}, 4)
 	for i := 0; i < nworlds; i++ {
 		wg.Add(1)
 		sem <- struct{}{}
@@ -1284,6 +1330,7 @@ func main() {
 		flush(res)
 	}
 	flush(emitKeys(*seed, *tier))
+	flush(emitUnits(*seed, *tier))
 	w.Extra["float_policy"] = "every sum/min/max/avg/quantile aggregation is also emitted as a float case (CAggF): Min/Max/Sum bit patterns of every bin and the bucket values are compared BIT-EXACTLY with the IEEE binary64 replay of the recorded merge tree (general decimals, huge/tiny magnitudes, signed zeros, cancelling values, overflow to Inf/NaN); spec: Sum within N*2^-52*sum|x| of the exact rational sum, Min/Max exact, Avg = RNE(Sum/Total). The exact-integer model cases (CAgg) of general-decimal worlds keep their coarse 1e-9 comparison of Sum/Avg, which is redundant now."
 	if err := w.Close(); err != nil {
 		panic(err)
@@ -1326,6 +1373,10 @@ func doReplay(path string, flush func(*result)) {
 		flush(emitKeys(seed, rp.Tier))
 		return
 	}
+	if _, ok := in["unit"]; ok {
+		flush(emitUnits(seed, rp.Tier))
+		return
+	}
 	wi, si := num("world"), num("search")
 	ti, hasT := in["tree_index"]
 	ai := num("agg_index")
@@ -1333,8 +1384,9 @@ func doReplay(path string, flush func(*result)) {
 	if rp.Tier == "thorough" {
 		nsearch = 8
 	}
-	res := runWorld(seed, wi, rp.Tier, nsearch, func(s, t, a int) bool {
-		if s != si {
+	li := num("lim_index")
+	res := runWorld(seed, wi, rp.Tier, nsearch, func(s, l, t, a int) bool {
+		if s != si || l != li {
 			return false
 		}
 		if !hasT {
